@@ -6,6 +6,7 @@ CONSTANTS
   Fixed = TRUE
   UseSched = TRUE
   CondErr = FALSE
+  Holds = {"waiting","before","cmd1","gate2","cmd2","after","done"}
 SPECIFICATION GSpec
 INVARIANTS NoPanic NoStartAfterCancel InterruptedReportsError Emit
 PROPERTIES Finishes
